@@ -68,6 +68,11 @@ def cases(tier):
                 buckets.setdefault(e, []).append(i)
         for e, idxs in sorted(buckets.items(), key=lambda kv: (int(np.prod(kv[0][0])), str(kv[0]))):
             out.append({"kind": "options", "shape": list(e[0]), "vs": e[1], "mass": e[2], "aa": e[3], "weight": e[4], "combos": sorted(set(idxs))})
+    # iterative back-ends with the library's DEFAULT tolerances, on mass distributions of very small
+    # magnitude (x 2^-30): accuracy must be relative to the size of the data
+    for g in [(5,), (3, 4), (2, 2, 2)]:
+        for m in ("corner-to-corner", "dense"):
+            out.append({"kind": "tiny-default", "shape": list(g), "mass": m})
     fgrids = [(5,), (3, 4), (2, 2, 2)] if tier == "thorough" else [(5,), (3, 4)]
     for g in fgrids:
         for m in ("corner-to-corner", "dense"):
@@ -295,7 +300,40 @@ def run_fault(case, r):
     r.notes.setdefault("samples", [{"base": case, "fault_schedule_example": [0, 1], "meaning": "second in-loop linear solve raises"}])
 
 
+def run_tiny(case, r):
+    shape, mk = tuple(case["shape"]), case["mass"]
+    dim = len(shape)
+    vs = Wh.voxel_sizes(dim, "aniso")
+    a, b = Wh.mass_pairs(shape, mk)
+    al = 2.0**-30
+    for method, backend in itertools.product(("newton", "bregman"), ("cg", "amg", "direct")):
+        o = {"l1_mode": "RAVIART_THOMAS", "mobility_mode": "CELL_BASED", "formulation": "pressure", "linear_solver": backend, "num_iter": 6}
+        if method == "bregman":
+            o["L"] = al  # the penalty parameter scales with the flux
+        res = Wh.run_solver(method, shape, vs, al * a, al * b, o)
+        tagc = {"shape": shape, "mass": mk, "method": method, "backend": backend, "scale": "2^-30", "linear_solver_options": "library defaults"}
+        if res.exc is not None:
+            r.fail(f"C04/usable/{method}/pressure-{backend}/tiny-default", "runs with default solver options on tiny masses", exception=repr(res.exc)[:300], cfg=tagc)
+            continue
+        ref = Wh.Ref(res.grid)
+        diff = ref.vol * ref.flat(al * (b - a))
+        mscale = float(np.max(np.abs(diff)))
+        mb = float(np.max(np.abs(ref.divergence(res.flux) - diff)))
+        tol = 1e-9 if backend == "direct" else 1e-4  # default iterative tolerances are 1e-6 relative
+        r.check(np.all(np.isfinite(res.flux)) and mb <= tol * mscale, f"C04/mass-balance/{method}/pressure-{backend}/tiny-default", "mass balance holds relative to the magnitude of the masses, also for tiny masses and default solver tolerances", error=mb, mass_scale=mscale, cfg=tagc)
+        cost = ref.cost(res.flux, "RAVIART_THOMAS")
+        r.check(abs(res.distance - cost) <= 1e-10 * max(abs(cost), 1e-300), f"C04/distance-is-cost-of-flux/{method}/tiny-default", "the reported distance is the cost of the returned flux", distance=res.distance, cost=cost, cfg=tagc)
+        r.check(res.distance > 0, f"C04/mass-balance/{method}/pressure-{backend}/tiny-default", "a non-trivial transport has a positive distance", distance=res.distance, cfg=tagc)
+        r.nontriv(tagc)
+        r.count("solver_runs")
+        r.count("transitions")
+        r.count("traces")
+        r.outcome((tagc, float(res.distance) / al))
+
+
 def run_case(case, r):
+    if case["kind"] == "tiny-default":
+        return run_tiny(case, r)
     if case["kind"] == "options":
         run_options(case, r)
     else:
